@@ -927,6 +927,23 @@ pub fn run_shard(ctx: &mut Ctx) {
         }
         ctx.end_phase();
     }
+    if ctx.prop == "C06" {
+        // refused calls along walks in which update_state is an ordinary step
+        ctx.begin_phase(0.2);
+        let n = if ctx.tier == Tier::Quick { 150 } else { 10_000 };
+        for k in 0..n {
+            if !ctx.time_left() {
+                break;
+            }
+            let (ws, _, _, _) = if k % 2 == 0 { crate::props::c16walk::walk_legal(r.next()) } else { crate::props::c16walk::walk3(r.next()) };
+            ctx.out.count("walk:walks", 1);
+            ctx.out.count("walk:refused_calls_compared", ws.refused_calls_compared);
+            if let Some(v) = ws.trace_left {
+                ctx.out.viol(v);
+            }
+        }
+        ctx.end_phase();
+    }
     if ctx.prop == "C06" || ctx.prop == "C16" {
         // a partially ordered vote type (the tuple votes of the main harness types are totally ordered)
         ctx.begin_phase(0.2);
